@@ -3,6 +3,7 @@ from common import *
 OBLIGATIONS = [
     ob('C05.criteria.lex', 'verif_frag::criteria::c05_criteria_lex', 'Criteria::cmp (whole body): result = first non-Equal per-key comparison, else the length comparison; key lists up to length 3, per-key orderings fully symbolic', units=['criteria'], complete=False, bound='<= 3 keys (the bound of the property)'),
     ob('C05.criteria.at', 'verif_frag::criteria::c05_criteria_at', 'Criteria::cmp_at: numeric key -> numeric comparison, else date key -> chronological, else direct; ascending keeps, desc reverses - for all 2^3 x 3^3 combinations', units=['criteria']),
+    ob('C05.key.numeric', 'verif_frag::criteria::c05_key_numeric', 'cmp_at_numbers / cmp_at_direct (verbatim bodies on a shim value type): a numeric key compares by exact numeric value for all u64 pairs (no rounding), other keys by the value own order', units=['criteria']),
     ob('C05.orderby.positional', 'verif_frag::orderby::c05_positional', 'positional arm of parse_order_by: for |columns| <= 3 and every usize k: 1 <= k <= |columns| selects column k-1, anything else is an error', units=['orderby_arms'], complete=False, bound='select list of <= 3 columns; k unbounded'),
     ob('C05.orderby.desc', 'verif_frag::orderby::c05_desc', 'DESC arm of parse_order_by: flips exactly the last pushed direction; rejected when no key precedes it', units=['orderby_arms'], complete=False, bound='<= 3 keys'),
     ob('C05.numeric.classification', 'field::verif_kani::c05_numeric_classification', 'for every variant of the real Field enum: documented integer columns are is_numeric_field, created/accessed/modified are is_datetime_field, documented text columns are neither', engine='K', units=['fieldclass']),
@@ -11,5 +12,5 @@ OBLIGATIONS.append(dict(id='C05.orderby.parse', engine='V', verus_fn='Parser::pa
     desc='for every token vector: on success the key list and the direction list of the real parse_order_by have equal length; positional keys are bounds-checked (index in range proved), `desc` never underflows'))
 CANARIES = [dict(harness='verif_frag::criteria::canary_criteria_must_fail', units=['criteria']), dict(harness='field::verif_kani::canary_field_must_fail', units=['fieldclass'])]
 ASSUMPTIONS = ['per-key comparisons (parse_filesize / parse_datetime / T::cmp) are total orders; they enter the fragments as symbolic Ordering values', 'cmp(b, a) == cmp(a, b).reverse() for the per-key comparison (used only if the source swaps the operands)']
-NOT_COVERED = ['that the buffered rows come out in Criteria order and form a permutation (TopN / BTreeMap: beyond CBMC and Verus here)', 'numeric / date key comparison itself', 'Expr::contains_numeric / contains_datetime on expression keys', 'check_file building the criteria vector']
+NOT_COVERED = ['that the buffered rows come out in Criteria order and form a permutation (TopN / BTreeMap: beyond CBMC and Verus here)', 'date key comparison (parse_datetime), the text -> number step of numeric keys (parse_filesize: C14)', 'Expr::contains_numeric / contains_datetime on expression keys', 'check_file building the criteria vector']
 HARNESS_TIMEOUT = 300
